@@ -74,7 +74,7 @@ def _case(c):
         elif op == "A": steps.append((op, int(c[k + 1]), bytes.fromhex(c[k + 2]) if c[k + 2] != "-" else b"")); k += 3
         elif op == "R": steps.append((op, int(c[k + 1]), int(c[k + 2]))); k += 3
         elif op == "K": steps.append((op, int(c[k + 1]))); k += 2
-        elif op in ("O", "D"): steps.append((op, int(c[k + 1]))); k += 2
+        elif op in ("O", "D") : steps.append((op, int(c[k + 1]))); k += 2
         elif op == "RO": steps.append((op, int(c[k + 1]), int(c[k + 2]))); k += 3
         else: steps.append((op,)); k += 1
     return table, steps
@@ -154,7 +154,7 @@ CFG = {
     "classify": c03_classify,
     "signatures": {"c03_unlisted_stream": sig_unlisted_stream, "c03_trunc_multistream": sig_trunc_multistream},
     "trace": True,
-    "rule": "histories from one PRNG: 1-3 files (plus files created by rename rotation and new files while down), 1-3 stream values, appends with lines split between writes, acks chosen per (file, stream) head, waits for an offsets save, kill at a step / after the k-th boundary record / at a PRNG instant, downtime appends + rename rotations, restart until idle; dedicated truncation scenarios; files that leave the watched directory right after an append (moved out with/without a new file under the old name, unlinked); async and sync persistence; 1-3 workers, read buffers 16/64/4096, 1-4 processors. distinct = distinct case line; non-trivial = a kill happened, the second run reached idle and the input offered at least one event",
+    "rule": "histories from one PRNG: 1-3 files (plus files created by rename rotation and new files while down), 1-3 stream values, appends with lines split between writes, acks chosen per (file, stream) head, waits for an offsets save, kill at a step / after the k-th boundary record / at a PRNG instant, downtime appends + rename rotations, restart until idle; dedicated truncation scenarios; lines written in several writes with the job idle over maintenance passes in between; files that leave the watched directory right after an append (moved out with/without a new file under the old name, unlinked); async and sync persistence; 1-3 workers, read buffers 16/64/4096, 1-4 processors. distinct = distinct case line; non-trivial = a kill happened, the second run reached idle and the input offered at least one event",
     "corr_name": "FileRestart.step? replay = observed boundary trace of file.Plugin + pipeline (PassEvent results, SeqIDs, hand-offs, commits, offsets file at the kill, idleness)",
     "trusted_base": [
         "OS: rename keeps the inode, a new file gets a fresh inode within one case, SIGKILL loses no written page",
